@@ -283,7 +283,7 @@ def main() -> int:
     rep = Report(PROP)
     t = tier()
     sd = seed()
-    n = 120 if t == "quick" else 2000
+    n = 260 if t == "quick" else 2000
     passes = 12 if t == "quick" else 40
     cases = [(i, sd, passes, (0, 0, 1000, 5)[i % 4]) for i in range(n)]
     for case, st, res in run_cases(run_case, cases):
